@@ -337,11 +337,11 @@ func dischargeSeeds(o *Obligation, file string, timeout time.Duration) float64 {
 	return total
 }
 
-var reConstNull = regexp.MustCompile(`\(\(as const (\(Array [A-Za-z0-9_.]+ [A-Za-z0-9_.]+\))\) null\)`)
+var reConstNull = regexp.MustCompile(`\(\(as const (\(Array [A-Za-z0-9_.]+ [A-Za-z0-9_.]+\))\) ([A-Za-z][A-Za-z0-9_.!]*)\)`)
 
 // cvc5File writes the cvc5 dialect of a script: cvc5 only accepts values as the element of a constant array, and the
-// null reference is a declared constant. Each ((as const (Array K Ref)) null) becomes a declared array that is null
-// everywhere (same meaning, stated with a quantifier).
+// null reference, string literals and other declared constants are not values. Each ((as const (Array K V)) c) with a
+// declared constant c becomes a declared array that is c everywhere (same meaning, stated with a quantifier).
 func cvc5File(file string) string {
 	b, err := os.ReadFile(file)
 	if err != nil {
@@ -351,25 +351,32 @@ func cvc5File(file string) string {
 	out := file + ".cvc5.smt2"
 	if strings.Contains(s, "(as const") {
 		decl := map[string]string{}
-		var order []string
+		type ent struct{ sort, elem string }
+		var order []ent
 		s = reConstNull.ReplaceAllStringFunc(s, func(m string) string {
-			sort := reConstNull.FindStringSubmatch(m)[1]
-			if _, ok := decl[sort]; !ok {
-				decl[sort] = fmt.Sprintf("constnull.%d", len(decl))
-				order = append(order, sort)
+			sm := reConstNull.FindStringSubmatch(m)
+			sort, elem := sm[1], sm[2]
+			if elem == "true" || elem == "false" {
+				return m
 			}
-			return decl[sort]
+			key := sort + " " + elem
+			if _, ok := decl[key]; !ok {
+				decl[key] = fmt.Sprintf("constarr.%d", len(decl))
+				order = append(order, ent{sort, elem})
+			}
+			return decl[key]
 		})
+		// the definitions go right before the first assertion (all constants are declared by then)
 		var d strings.Builder
-		for _, sort := range order {
-			key := strings.Fields(strings.Trim(sort, "()"))[1]
-			fmt.Fprintf(&d, "(declare-const %s %s)\n(assert (forall ((i %s)) (= (select %s i) null)))\n", decl[sort], sort, key, decl[sort])
+		for _, e := range order {
+			name := decl[e.sort+" "+e.elem]
+			key := strings.Fields(strings.Trim(e.sort, "()"))[1]
+			fmt.Fprintf(&d, "(declare-const %s %s)\n(assert (forall ((i %s)) (= (select %s i) %s)))\n", name, e.sort, key, name, e.elem)
 		}
 		if d.Len() > 0 {
-			k := strings.Index(s, "(declare-const null Ref)\n")
+			k := strings.Index(s, "\n(assert ")
 			if k >= 0 {
-				k += len("(declare-const null Ref)\n")
-				s = s[:k] + d.String() + s[k:]
+				s = s[:k+1] + d.String() + s[k+1:]
 			}
 		}
 	}
